@@ -1,4 +1,4 @@
-\* quick: two clients x 1 message, pool of 2, repaired pool: every invariant
+\* thorough: two clients x 1 message, pool of 2, repaired pool: every invariant
 CONSTANTS
   c1 = c1
   c2 = c2
